@@ -29,6 +29,12 @@ pub enum ModelKind {
     RowScaled(Box<ModelKind>, Vec<f64>),
     /// values of the inner kind, derivative k replaced by the k-th table
     BadDeriv(Box<ModelKind>, Vec<Mat>),
+    /// the inner kind behind a wrapper that evaluates only after set_params has been called once
+    Lazy(Box<ModelKind>),
+    /// builder-made model over position-coded closures of arity 1..10 (the C16 family): functions
+    /// over arbitrary ordered subsets of the model parameters, "derivatives" that are codes as well -
+    /// everything that only needs the model's own Phi and D_k can be judged on it
+    Coded(crate::coded::CodedSpec),
 }
 
 impl ModelKind {
@@ -36,6 +42,8 @@ impl ModelKind {
         match self {
             ModelKind::Built(s) | ModelKind::Hand(s) | ModelKind::HandRejecting(s) => Some(s),
             ModelKind::RowScaled(k, _) | ModelKind::BadDeriv(k, _) => k.spec(),
+            ModelKind::Lazy(k) => k.spec(),
+            ModelKind::Coded(_) => None,
             _ => None,
         }
     }
@@ -46,6 +54,8 @@ impl ModelKind {
             ModelKind::OneCol { n, .. } => *n,
             ModelKind::Table { n, .. } => *n,
             ModelKind::RowScaled(k, _) | ModelKind::BadDeriv(k, _) => k.n(),
+            ModelKind::Lazy(k) => k.n(),
+            ModelKind::Coded(c) => c.x.len(),
         }
     }
     pub fn m(&self) -> usize {
@@ -55,6 +65,8 @@ impl ModelKind {
             ModelKind::OneCol { .. } => 1,
             ModelKind::Table { m, .. } => *m,
             ModelKind::RowScaled(k, _) | ModelKind::BadDeriv(k, _) => k.m(),
+            ModelKind::Lazy(k) => k.m(),
+            ModelKind::Coded(c) => c.funcs.len(),
         }
     }
     pub fn np(&self) -> usize {
@@ -64,6 +76,8 @@ impl ModelKind {
             ModelKind::OneCol { .. } => 1,
             ModelKind::Table { p, .. } => *p,
             ModelKind::RowScaled(k, _) | ModelKind::BadDeriv(k, _) => k.np(),
+            ModelKind::Lazy(k) => k.np(),
+            ModelKind::Coded(c) => c.names.len(),
         }
     }
     pub fn instantiate<T: Sc>(&self, alpha0: &[f64]) -> AnyModel<T> {
@@ -96,6 +110,8 @@ impl ModelKind {
                 AnyModel::RowScaled(Box::new(k.instantiate::<T>(alpha0)), dvec::<T>(w))
             }
             ModelKind::BadDeriv(k, d) => AnyModel::BadDeriv(Box::new(k.instantiate::<T>(alpha0)), d.iter().map(|m| dmat::<T>(m)).collect()),
+            ModelKind::Lazy(k) => AnyModel::Lazy(Box::new(k.instantiate::<T>(alpha0)), std::sync::atomic::AtomicBool::new(false)),
+            ModelKind::Coded(c) => AnyModel::Built(crate::coded::build_coded::<T>(c, alpha0, &crate::coded::Misbehave::new()).expect("generated coded specification is valid")),
         }
     }
     /// The oracle's Φ(α) (evaluated in T, widened) — independent of varpro's routing.
@@ -124,6 +140,11 @@ impl ModelKind {
                 crate::sc::widen(&tm.phi_at(&tm.params))
             }
             ModelKind::BadDeriv(k, _) => k.phi64::<T>(alpha),
+            ModelKind::Lazy(k) => k.phi64::<T>(alpha),
+            ModelKind::Coded(c) => {
+                let a: Vec<T> = alpha.iter().map(|v| T::of(*v)).collect();
+                Mat::from_fn(c.x.len(), c.funcs.len(), |i, j| crate::coded::code_value::<T>(j, T::of(c.x[i]), &crate::coded::route::<T>(c, j, &a)).w())
+            }
             ModelKind::RowScaled(k, w) => {
                 // rows scaled in T, as the wrapped model does
                 let inner = k.phi64::<T>(alpha);
@@ -151,6 +172,14 @@ impl ModelKind {
                 Mat::from_fn(s.r, s.c, |i, j| crate::sc::rt::<T>(s.at(i, j)))
             }
             ModelKind::BadDeriv(_, d) => Mat::from_fn(d[k].r, d[k].c, |i, j| crate::sc::rt::<T>(d[k].at(i, j))),
+            ModelKind::Lazy(kk) => kk.dphi64::<T>(alpha, k),
+            ModelKind::Coded(c) => {
+                let a: Vec<T> = alpha.iter().map(|v| T::of(*v)).collect();
+                Mat::from_fn(c.x.len(), c.funcs.len(), |i, j| match c.funcs[j].params.iter().position(|nm| *nm == c.names[k]) {
+                    Some(q) => crate::coded::code_deriv::<T>(j, q, T::of(c.x[i]), &crate::coded::route::<T>(c, j, &a)).w(),
+                    None => 0.0,
+                })
+            }
             ModelKind::RowScaled(kk, w) => {
                 let inner = kk.dphi64::<T>(alpha, k);
                 Mat::from_fn(inner.r, inner.c, |i, j| {
@@ -169,6 +198,8 @@ impl ModelKind {
             ModelKind::Table { n, m, p, base, slope } => json!({"table": {"n": n, "m": m, "p": p,
                 "base": fmt_vec(&base.d), "slope": slope.iter().map(|s| fmt_vec(&s.d)).collect::<Vec<_>>()}}),
             ModelKind::RowScaled(k, w) => json!({"rowscaled": {"inner": k.to_json(), "w": fmt_vec(w)}}),
+            ModelKind::Lazy(k) => json!({"lazily_primed": k.to_json()}),
+            ModelKind::Coded(c) => json!({"coded": {"names": c.names, "functions": c.funcs.iter().map(|f| json!({"params": f.params, "derivatives_supplied_in_order": f.deriv_order})).collect::<Vec<_>>(), "x": c.x}}),
             ModelKind::BadDeriv(k, d) => json!({"bad_derivatives": {"inner": k.to_json(), "tables": d.iter().map(|m| fmt_vec(&m.d)).collect::<Vec<_>>()}}),
         }
     }
